@@ -6,8 +6,9 @@ from sqlparse import sql
 
 RULE = ('object references [qual.]name [[AS] alias] x spelling (plain, "double-quoted" incl. keywords/blanks/escapes, `backtick`) x whitespace choice x syntactic context '
         '(select list position, FROM list, JOIN, UPDATE target, INSERT target, subquery) x neighbouring items; non-trivial = distinct (reference text, context)')
-ASSUMPTIONS = ['grouping delivers the canonical Identifier shape in these contexts: checked here on the real code and by S-TREE/S-ACC on the same texts, not a theorem']
-PARTIAL = ['identifier_shape in contexts (that grouping builds the canonical shape) is sampled, not proved']
+ASSUMPTIONS = ['lexer/grouping/accessor models tied by S-TREE/S-ACC on the generated texts and by DOMAIN(skeleton) on the table of the in-context theorem (every skeleton and random admissible renamings of it, on the real code)']
+PARTIAL = ['in-context theorem: parametricity (respell_group_names) + accessors_of_skelCheck are proved in the quick tier; the 570-skeleton table is evaluated by the compiled driver in the quick tier and decided by the kernel in the thorough tier (SqlPropsSlow.C12Table, about 30 min CPU); contexts outside the table (deeper nesting, longer lists, other whitespace token counts) are checked on the real code by the oracle']
+THOROUGH_MODULES = ['SqlPropsSlow.C12Table']
 
 PLAIN = ['col_x', 't1', 'emp', 'zz9', 'a', 'B', 'u_name', 'dept_id', 'x1y', 'Tbl']
 QUOTED = ['"Q x"', '"select"', '"a;b"', '"it""s"', '"x.y"', '`bq`', '`from`', '`a b`', '"Ünï"', '"a,b"']
@@ -99,6 +100,8 @@ def run(ctx):
     ctx.samples += [short(t, 90) for t in texts[:3]]
     for c in streams.corpus('C12'):
         oracle(ctx, *c['input'])
+    if ctx.model.available:
+        domain_skeleton(ctx)
     if ctx.model.available and hasattr(streams, 's_acc'):
         streams.s_acc(ctx, texts[: ctx.n(300, 4000)])
         if hasattr(streams, 's_tree'):
@@ -107,8 +110,74 @@ def run(ctx):
         ctx.notes.append('model driver unavailable: correspondence streams skipped')
 
 
+def _walk(n):
+    yield n
+    if n.is_group:
+        for c in n.tokens:
+            yield from _walk(c)
+
+
+def _has_ref(text, qual, name, alias):
+    """does the real tree contain an Identifier whose accessors return exactly these written parts?"""
+    for st in sqlparse.parse(text):
+        for n in _walk(st):
+            if isinstance(n, sql.Identifier):
+                try:
+                    if (n.get_real_name() == unq(name) and n.get_parent_name() == (unq(qual) if qual else None)
+                            and n.get_alias() == (unq(alias) if alias else None) and n.get_name() == (unq(alias) if alias else unq(name))
+                            and n.has_alias() == (alias is not None)):
+                        return True
+                except Exception:
+                    pass
+    return False
+
+
+def domain_skeleton(ctx):
+    """DOMAIN(skeleton): (1) the compiled model evaluates `skelCheck` to true on all skeletons of the table (what the kernel decides in the
+    thorough tier); (2) the real code has the canonical Identifier for every skeleton text; (3) the theorem's universal part on the real
+    code: random admissible renamings of all names, re-casing of keywords and other whitespace characters keep the accessors' answers"""
+    rng = ctx.rng
+    mo = ctx.model.ask(['skelcheck'])[0].split()
+    ctx.stream('DOMAIN(skeleton)', inputs=1, lines=1)
+    if mo[:1] != ['ok'] or mo[1] != mo[2]:
+        ctx.mismatch('DOMAIN(skeleton)', 'skelcheck', ' '.join(mo)[:300], 'all skeletons canonical')
+    un = lambda w: None if w == '-' else ''.join(chr(int(x, 16)) for x in w.split(','))
+    sk = [tuple(un(p) for p in w.split('|')) for w in ctx.model.ask(['skeltexts'])[0].split()[1:]]
+    ctx.dist['skeletons'] = len(sk)
+    pool = 'dfghijkmnopquvwxyz'          # letters outside the pieces of CREATE/TABLE/AS (`Blocked` names of the theorem)
+    def fresh():
+        return rng.choice(pool) + ''.join(rng.choice(pool + '_0123456789') for _ in range(rng.randint(0, 6)))
+    for text, qual, name, alias in sk:
+        ctx.stream('DOMAIN(skeleton)', inputs=1, lines=1)
+        if not _has_ref(text, qual, name, alias):
+            ctx.fail('table skeleton: the real tree has no Identifier with the written name/qualifier/alias', text,
+                     observed='none', required={'real_name': name, 'parent_name': qual, 'alias': alias})
+            continue
+        for _ in range(2 if ctx.quick() else 12):
+            # rename every placeholder name consistently (quoted ones keep their quotes), re-case keywords, re-spell blanks
+            import re as _re
+            names = sorted(set(_re.findall(r'[a-z]+\d', text)), key=len, reverse=True)
+            ren = {n: fresh() + str(i) for i, n in enumerate(names)}
+            sub = lambda v: None if v is None else _re.sub(r'[a-z]+\d', lambda m: ren[m.group(0)], v)
+            t2 = _re.sub(r'[a-z]+\d', lambda m: ren[m.group(0)], text)
+            t2 = _re.sub(r'\b(select|from|as|join|on|update|set|insert|into|values|where)\b',
+                         lambda m: ''.join(ch.upper() if rng.random() < 0.5 else ch for ch in m.group(0)), t2)
+            t2 = ''.join(rng.choice(' \t') if ch == ' ' else ch for ch in t2)
+            ctx.evaluations += 1
+            if not _has_ref(t2, sub(qual), sub(name), sub(alias)):
+                ctx.fail('re-spelled table skeleton: accessors do not return the written parts', t2,
+                         observed='none', required={'real_name': sub(name), 'parent_name': sub(qual), 'alias': sub(alias)}, skeleton=text)
+                break
+
+
 def replay(ctx, payload):
     ex = payload.get('extra') or {}
+    req = payload.get('required')
+    if isinstance(req, dict) and 'real_name' in req and 'context' not in ex and 'ref' not in ex:
+        ok = _has_ref(payload['input'], req['parent_name'], req['real_name'], req['alias'])
+        if not ok:
+            ctx.fail('table skeleton: accessors do not return the written parts', payload['input'], observed='none', required=req)
+        return not ok
     want = ex.get('want') or payload.get('required')
     if not isinstance(want, dict) or 'ref' not in ex and 'context' not in ex:
         return True
